@@ -6,18 +6,19 @@
    [impl = spec ; model ideal = spec ; impl = model c for every candidate c]. *)
 From TL Require Import Lib.Base Lib.GenTypes Model.CollectStr Model.Glob Gen.CollectGen Model.Collect Model.CollectSpec.
 
+(* the vector q with flag i switched ON: the former defect i on top of the current code *)
 Definition with_flag (i : nat) (q : cquirks) : cquirks :=
   match i with
-  | 0 => Build_cquirks false (q_excl_filename q) (q_dirpat_prefix q) (q_dirpat_filename q) (q_doublestar_needs_dir q) (q_ti_shadows_config q) (q_json_ignore_unused q)
-  | 1 => Build_cquirks (q_excl_above_root q) false (q_dirpat_prefix q) (q_dirpat_filename q) (q_doublestar_needs_dir q) (q_ti_shadows_config q) (q_json_ignore_unused q)
-  | 2 => Build_cquirks (q_excl_above_root q) (q_excl_filename q) false (q_dirpat_filename q) (q_doublestar_needs_dir q) (q_ti_shadows_config q) (q_json_ignore_unused q)
-  | 3 => Build_cquirks (q_excl_above_root q) (q_excl_filename q) (q_dirpat_prefix q) false (q_doublestar_needs_dir q) (q_ti_shadows_config q) (q_json_ignore_unused q)
-  | 4 => Build_cquirks (q_excl_above_root q) (q_excl_filename q) (q_dirpat_prefix q) (q_dirpat_filename q) false (q_ti_shadows_config q) (q_json_ignore_unused q)
-  | 5 => Build_cquirks (q_excl_above_root q) (q_excl_filename q) (q_dirpat_prefix q) (q_dirpat_filename q) (q_doublestar_needs_dir q) false (q_json_ignore_unused q)
-  | _ => Build_cquirks (q_excl_above_root q) (q_excl_filename q) (q_dirpat_prefix q) (q_dirpat_filename q) (q_doublestar_needs_dir q) (q_ti_shadows_config q) false
+  | 0 => Build_cquirks true (q_excl_filename q) (q_dirpat_prefix q) (q_dirpat_filename q) (q_doublestar_needs_dir q) (q_ti_shadows_config q) (q_json_ignore_unused q)
+  | 1 => Build_cquirks (q_excl_above_root q) true (q_dirpat_prefix q) (q_dirpat_filename q) (q_doublestar_needs_dir q) (q_ti_shadows_config q) (q_json_ignore_unused q)
+  | 2 => Build_cquirks (q_excl_above_root q) (q_excl_filename q) true (q_dirpat_filename q) (q_doublestar_needs_dir q) (q_ti_shadows_config q) (q_json_ignore_unused q)
+  | 3 => Build_cquirks (q_excl_above_root q) (q_excl_filename q) (q_dirpat_prefix q) true (q_doublestar_needs_dir q) (q_ti_shadows_config q) (q_json_ignore_unused q)
+  | 4 => Build_cquirks (q_excl_above_root q) (q_excl_filename q) (q_dirpat_prefix q) (q_dirpat_filename q) true (q_ti_shadows_config q) (q_json_ignore_unused q)
+  | 5 => Build_cquirks (q_excl_above_root q) (q_excl_filename q) (q_dirpat_prefix q) (q_dirpat_filename q) (q_doublestar_needs_dir q) true (q_json_ignore_unused q)
+  | _ => Build_cquirks (q_excl_above_root q) (q_excl_filename q) (q_dirpat_prefix q) (q_dirpat_filename q) (q_doublestar_needs_dir q) (q_ti_shadows_config q) true
   end.
 
-(* candidates: the claimed vector, the claimed vector with one flag switched off, the ideal *)
+(* candidates: the claimed vector, the claimed vector with one former defect switched on, the ideal *)
 Definition candidates (q : cquirks) : list cquirks := q :: map (fun i => with_flag i q) [0;1;2;3;4;5;6] ++ [ideal].
 
 (* the directory at rel inside t *)
